@@ -19,6 +19,8 @@ import (
 	"strings"
 )
 
+const simrtPkg = "github.com/gogpu/naga/zverif/simrt"
+
 const (
 	tagNil   = 0x9e3779b97f4a7c15
 	tagPtr   = 0xbf58476d1ce4e5b9
@@ -136,6 +138,11 @@ func hashValue(v reflect.Value, depth int) uint64 {
 		}
 		return mix(mix(tagMap, uint64(v.Len())), sum)
 	case reflect.Struct:
+		if v.Type().PkgPath() == simrtPkg {
+			// simulator-owned synchronisation objects (Mutex, Pool ...):
+			// their internal state is not compiler state
+			return typeHash(v.Type())
+		}
 		n := v.NumField()
 		h := typeHash(v.Type())
 		for i := 0; i < n; i++ {
@@ -230,6 +237,9 @@ func flat(v reflect.Value, path string, depth int, out *[]Entry) {
 		}
 	case reflect.Struct:
 		t := v.Type()
+		if t.PkgPath() == simrtPkg {
+			return
+		}
 		for i := 0; i < v.NumField(); i++ {
 			p := t.Field(i).Name
 			if path != "" {
